@@ -418,6 +418,11 @@ SCRIPTS = [
     # a page-in that fails AFTER its segment was created (the spill file has vanished): the reservation is given back exactly once
     (4, [("add", "a", 3), ("fin_write", "a"), ("add", "b", 3), ("complete", 0, True), ("add", "b", 3), ("fin_write", "b"), ("get", "a"), ("complete", 0, True),
          ("get", "a"), ("complete", 0, "nofile"), ("add", "c", 4), ("add", "d", 1), ("get", "b")]),
+    # the only idle dataset was read twice at different times (a multiply-consumed eviction candidate); a request that fits once it is evicted follows
+    (4, [("add", "a", 3), ("fin_write", "a"), ("get", "a"), ("fin_read", "a"), ("tick",), ("get", "a"), ("fin_read", "a"), ("tick",), ("add", "b", 3), ("complete", 0, True), ("add", "b", 3)]),
+    # one dataset of each kind (never read, read once, read at two different times), then the probe asks for the whole capacity
+    (6, [("add", "a", 2), ("fin_write", "a"), ("add", "b", 2), ("fin_write", "b"), ("add", "c", 2), ("fin_write", "c"), ("get", "b"), ("fin_read", "b"),
+         ("get", "c"), ("fin_read", "c"), ("tick",), ("get", "c"), ("fin_read", "c"), ("tick",)]),
     # eviction attempt that finds nothing evictable, later one that does
     (4, [("add", "a", 3), ("add", "b", 3), ("fin_write", "a"), ("get", "a"), ("add", "b", 3), ("fin_read", "a"), ("add", "b", 3), ("complete", 0, True), ("add", "b", 3)]),
 ]
@@ -511,6 +516,59 @@ def explore(out, prop, tier, seed):
                     cases, len(distinct), time.time() - t0, samples, failures_all)
 
 
+def lottery_cases(out, prop, tier):
+    """the REAL victim selection (shm.algorithms.lottery) on every candidate list of up to N entities over the three consumption kinds (never read /
+    read once / read at two different times), sizes 1..3, every amount: victims are candidates, none twice, and whenever evicting EVERY candidate
+    would free the amount, the chosen victims free it too (otherwise a request that idle datasets could make room for is answered 'wait' for ever)"""
+    from cascade.shm.algorithms import Entity, lottery
+    t0 = time.time()
+    n_max = 4 if tier == "quick" else 5
+    kinds = ((0, 0), (5, 5), (5, 9))
+    cases, failures, seen = 0, [], set()
+    for n in range(0, n_max + 1):
+        for combo in itertools.product(itertools.product(kinds, (1, 2, 3)), repeat=n):
+            ents = [Entity(key=f"k{i}", created=10 + i, retrieved_first=k[0], retrieved_last=k[1] + (i if k[1] != k[0] else 0) if k[1] else 0, size=sz) for i, (k, sz) in enumerate(combo)]
+            total = sum(e.size for e in ents)
+            for amount in range(0, total + 2):
+                cases += 1
+                desc = {"entities": [[e.key, e.created, e.retrieved_first, e.retrieved_last, e.size] for e in ents], "amount": amount}
+                try:
+                    win = lottery(list(ents), amount)
+                except Exception as e:  # noqa
+                    win, bad = None, ("C09/victims-are-candidates", f"lottery raised {type(e).__name__}: {e}")
+                if win is not None:
+                    by = {e.key: e for e in ents}
+                    bad = None
+                    if any(k not in by for k in win) or len(set(win)) != len(win):
+                        bad = ("C09/victims-are-candidates", f"victims {win}: not candidates, or one chosen twice")
+                    elif total >= amount and sum(by[k].size for k in win) < amount:
+                        bad = ("C09/evictable-request-eventually-granted", f"evicting every candidate frees {total} >= {amount}, the chosen victims {win} free only {sum(by[k].size for k in win)}: "
+                               "the request is answered 'wait' although idle datasets could make room")
+                if bad and bad[0] not in seen:
+                    seen.add(bad[0])
+                    failures.append({"obligation": bad[0], "kind": "lottery", "inputs": desc, "observed": bad[1], "class": "other", "clause": bad[0]})
+    out.add_bounded("shm victim selection (algorithms.lottery)", "exhaustive",
+                    f"real lottery() on every list of 0..{n_max} candidates x 3 consumption kinds x sizes 1..3, every amount 0..total+1", cases, cases, time.time() - t0,
+                    [{"entities": [["k0", 10, 5, 9, 2]], "amount": 2}], failures)
+
+
+def replay_lottery(doc):
+    from cascade.shm.algorithms import Entity, lottery
+    inp = doc["inputs"]
+    ents = [Entity(*e) for e in inp["entities"]]
+    by = {e.key: e for e in ents}
+    try:
+        win = lottery(list(ents), inp["amount"])
+    except Exception as e:  # noqa
+        return [("C09", "C09/victims-are-candidates", f"lottery raised {type(e).__name__}: {e}")]
+    if any(k not in by for k in win) or len(set(win)) != len(win):
+        return [("C09", "C09/victims-are-candidates", f"victims {win}")]
+    total = sum(e.size for e in ents)
+    if total >= inp["amount"] and sum(by[k].size for k in win) < inp["amount"]:
+        return [("C09", "C09/evictable-request-eventually-granted", f"victims {win} free less than {inp['amount']} although all candidates together free {total}")]
+    return []
+
+
 def _record(trace, fails, prop, failures_all, seen, distinct, cap):
     if len(trace) >= 3:
         distinct.add(str(trace))
@@ -524,6 +582,8 @@ def _record(trace, fails, prop, failures_all, seen, distinct, cap):
 def replay_case(doc):
     """re-run one recorded operation sequence on the current tree (real Manager + real Disk page code over the fake segment table);
     returns the list of (property, obligation, observed) it violates"""
+    if doc.get("kind") == "lottery":
+        return replay_lottery(doc)
     inp = doc["inputs"]
     w = World(inp["capacity"], inp.get("available", 1 << 40))
     failures, trace = [], []
